@@ -6,7 +6,7 @@
 //! Oracle: the three-valued recogniser of numrec.rs (written from the statement).
 
 use crate::fnum::{cell_kind, eq15, for_each_with_prefix, Kind, LOCALES};
-use crate::numrec::{shape, Feats, Recogniser, Verdict};
+use crate::numrec::{sig_shape, Feats, Recogniser, Verdict};
 use crate::report::{Disagreement, Run};
 use ironcalc_base::formatter::lexer::is_likely_date_number_format;
 use ironcalc_base::Model;
@@ -166,7 +166,7 @@ pub fn check_one(rec: &Recogniser, ty: &mut Typist, s: &str) -> (Verdict, Option
     match ty.type_in(s) {
         Ok(t) => {
             let d = judge(&v, &t).map(|(class, detail)| Disagreement {
-                sig: format!("{}:{} {} shape={}", v.name(), v.why(), class, shape(s, &rec.li)),
+                sig: format!("{}:{} {} shape={}", v.name(), v.why(), class, sig_shape(s, &rec.li)),
                 case,
                 detail: format!("typing `{}` in locale {}: {} [oracle: {} ({})]", s, rec.li.id, detail, v.name(), v.why()),
             });
@@ -195,6 +195,7 @@ struct Tally {
     numbers_stored: u64,
     outcomes: BTreeSet<String>,
     values: BTreeSet<u64>,
+    reasons: std::collections::BTreeMap<String, (u64, u64)>,
 }
 
 impl Tally {
@@ -212,6 +213,11 @@ impl Tally {
                 }
             }
             Verdict::Unspec { .. } => self.unspec += 1,
+        }
+        let e = self.reasons.entry(format!("{}:{}", v.name(), v.why())).or_insert((0, 0));
+        e.0 += 1;
+        if stored_number {
+            e.1 += 1;
         }
         if let Some(t) = t {
             if let Kind::Number(x) = t.kind {
@@ -292,6 +298,11 @@ pub fn run(run: &mut Run) {
                 total.numbers_stored += t.numbers_stored;
                 total.outcomes.extend(t.outcomes);
                 total.values.extend(t.values);
+                for (k, (a, b)) in t.reasons {
+                    let e = total.reasons.entry(k).or_insert((0, 0));
+                    e.0 += a;
+                    e.1 += b;
+                }
             }
             Err(e) => run.machinery_errors.push(format!("unit panicked: {}", e)),
         }
@@ -321,6 +332,10 @@ pub fn run(run: &mut Run) {
     run.extra.insert("if_number_not_stored".into(), json!(total.if_not_stored));
     run.extra.insert("unspecified_not_judged".into(), json!(total.unspec));
     run.extra.insert("stored_as_number".into(), json!(total.numbers_stored));
+    run.extra.insert(
+        "verdict_reason_inputs_and_stored_as_number".into(),
+        json!(total.reasons.iter().map(|(k, (a, b))| (k.clone(), json!([a, b]))).collect::<serde_json::Map<String, Value>>()),
+    );
     run.extra.insert("distinct_cell_kind_and_format".into(), json!(total.outcomes.len()));
     run.extra.insert("distinct_number_values".into(), json!(total.values.len()));
     run.sample(json!({"locale": "en", "input": "-$1e3", "oracle": "must-number -1000 (currency or exponent format)"}));
